@@ -66,6 +66,21 @@ func cmdVerify(args []string) {
 		}
 		if *showCalls {
 			printCallOrdinals(w, fn)
+			ws := w.writeSetOf(fn)
+			fmt.Printf("  write set (all=%v): %v\n", ws.all, ws.sorted())
+			if sp != nil {
+				for _, h := range sp.Hide {
+					if fd, ok := w.Specs.Funs[h]; ok {
+						rs := w.opaqueInfo(fd, w.ctxFor(fd.PkgPath, fd.File))
+						var ns []string
+						for n := range rs.arrs {
+							ns = append(ns, n)
+						}
+						sort.Strings(ns)
+						fmt.Printf("  read set of %s (next=%v): %v\n", h, rs.next, ns)
+					}
+				}
+			}
 		}
 		if sp != nil && sp.Opaque {
 			continue
